@@ -71,6 +71,14 @@ fn run_case(ctx: &Ctx, index: u64, rep: &mut Report) {
         "lines" => {
             for _ in 0..BATCH {
                 let body = stmt::line(&mut rng, 45);
+                // one line in ten loses a statement separator: the interpreter starts the next statement wherever the
+                // previous one ended (`X = 1 PRINT X` runs), and the analyzer has to accept what runs
+                let body = if rng.chance(1, 10) && body.contains(" : ") {
+                    rep.count("lines.separator_dropped");
+                    body.replacen(" : ", " ", 1)
+                } else {
+                    body
+                };
                 // a twelfth of the lines put the statements behind a STOP (reached by CONT) or into the ELSE clause
                 // of an IF whose THEN clause ends the program: still one path, judged in the first direction only
                 let (body, needs_cont) = if rng.chance(1, 12) {
